@@ -1,11 +1,11 @@
 \* C15 quick: 2 wallet transactions, up to 3 blocks above the birthday block, reorg depth <= 2,
-\* at most 6 blocks ever created (the repeated-notification bookkeeping multiplies states); reorgs keep the block right above the birthday block (MinKeep = 0).
+\* at most 7 blocks ever created; reorgs keep the block right above the birthday block (MinKeep = 0).
 CONSTANTS
   Txs = {1, 2}
   MaxLen = 3
   MaxDepth = 2
   MinKeep = 0
-  MaxBlocks = 6
+  MaxBlocks = 7
   Acts = {"StartDuringReorg", "Shrink"}
   MaxHist = 40
   FullHist = FALSE
